@@ -31,7 +31,9 @@ of `./check C01`): an IPv6 next hop for an IPv4 route without RFC 8950 negotiate
 for an IPv6 route, `next-hop self` for an IPv4 route on an IPv6 session (the router id is sent), and
 the link-local address appended to a VPN next hop (40 bytes). What is PROVED is
 `c01_roundtrip_partial`: the full statement under `NextHopOk` (exactly the negation of those four
-situations). Findings F4 (4-octet local AS) and "IPv4 multicast in the NLRI field" were repaired in
+situations). The first two are behind the generated flag `nhFamilyGuard` (does `messages()` consult
+`negotiated.nexthop`?): on a tree that leaves such routes out, the model does too, the hypothesis
+about the next-hop family becomes vacuous and the two witnesses become vacuous implications. Findings F4 (4-octet local AS) and "IPv4 multicast in the NLRI field" were repaired in
 /repo while this was built; the model follows the repaired code and needs no hypothesis for them.
 -/
 namespace Exa.Props.C01
@@ -163,6 +165,10 @@ theorem c01_raised_iff (p : SessParams) (r : RouteReq) :
     simp only [defaultPathRaises_false, Bool.false_eq_true, if_false]
     constructor
     · intro hr
+      by_cases cg : (nhFamilyGuard && !(nhFamilyOkB p r nh)) = true
+      · simp [cg] at hr
+      have cg' : (nhFamilyGuard && !(nhFamilyOkB p r nh)) = false := by simpa using cg
+      simp only [cg', Bool.false_eq_true, if_false] at hr
       by_cases c1 : p.msgSize < 23 + (attrBytes p r nh).length
       · simp [c1] at hr
       simp only [c1, if_false] at hr
@@ -241,7 +247,7 @@ example : WFReq pEx rEx := by
 
 example : NextHopOk pEx rEx := by
   refine ⟨[10, 255, 0, 1], by decide, ?_, ?_, ?_⟩
-  · exact ⟨fun _ => Or.inl rfl, fun h => by cases h⟩
+  · intro _; exact ⟨fun _ => Or.inl rfl, fun h => by cases h⟩
   · intro h; cases h
   · intro _; exact ⟨fun _ => rfl, fun h => by cases h⟩
 
@@ -269,10 +275,6 @@ def pPlain : SessParams :=
 
 def nh6 : Bytes := [32, 1, 13, 184, 0, 0, 0, 0, 0, 0, 0, 0, 0, 0, 0, 1]
 
-theorem wfsess_plain : WFSess pPlain := by
-  refine ⟨by simp [U32, pPlain], by decide, by decide, by decide, by decide, by decide, by decide, by decide, by decide, by decide, ?_⟩
-  intro ll h; cases h
-
 /-- `route 10.0.0.0/8 next-hop 2001:db8::1` -/
 def rExtNh : RouteReq :=
   { afi := 1, safi := 1, plen := 8, pfx := [10], pathId := none, labels := [], rd := [],
@@ -281,9 +283,10 @@ def rExtNh : RouteReq :=
 /-- On a session without RFC 8950 ExaBGP sends it as MP_REACH_NLRI (AFI 1) with a 16-byte next hop,
     which a receiver that did not negotiate extended next hop must reject (UPDATE Message Error 3/9). -/
 theorem c01_full_fails_ext_nexthop :
-    WFReq pPlain rExtNh ∧ encodeExa pPlain rExtNh = .sent (sentOf pPlain rExtNh) ∧
-    decodeUpdate (paramsOf pPlain) (sentOf pPlain rExtNh) = .error (3, 9) := by
-  refine ⟨?_, by decide, by decide⟩
+    WFReq pPlain rExtNh ∧ (nhFamilyGuard = false →
+      encodeExa pPlain rExtNh = .sent (sentOf pPlain rExtNh) ∧
+      decodeUpdate (paramsOf pPlain) (sentOf pPlain rExtNh) = .error (3, 9)) := by
+  refine ⟨?_, by decide⟩
   exact ⟨by decide, by decide, by decide, ⟨by decide, by decide⟩, fun a h => by cases h⟩
 
 /-- `route 2001:db8::/32 next-hop 1.2.3.4` -/
@@ -293,9 +296,10 @@ def rV4NhV6 : RouteReq :=
 
 /-- An IPv6 route is sent with a 4-byte next hop (3/9). -/
 theorem c01_full_fails_v4_nexthop_v6_route :
-    WFReq pPlain rV4NhV6 ∧ encodeExa pPlain rV4NhV6 = .sent (sentOf pPlain rV4NhV6) ∧
-    decodeUpdate (paramsOf pPlain) (sentOf pPlain rV4NhV6) = .error (3, 9) := by
-  refine ⟨?_, by decide, by decide⟩
+    WFReq pPlain rV4NhV6 ∧ (nhFamilyGuard = false →
+      encodeExa pPlain rV4NhV6 = .sent (sentOf pPlain rV4NhV6) ∧
+      decodeUpdate (paramsOf pPlain) (sentOf pPlain rV4NhV6) = .error (3, 9)) := by
+  refine ⟨?_, by decide⟩
   exact ⟨by decide, by decide, by decide, ⟨by decide, by decide⟩, fun a h => by cases h⟩
 
 /-- The same session over IPv6 transport. -/
@@ -330,11 +334,18 @@ theorem c01_full_fails_link_local_vpn :
   refine ⟨?_, by decide, by decide⟩
   exact ⟨by decide, by decide, by decide, ⟨by decide, by decide⟩, fun a h => by cases h⟩
 
-/-- Hence the full statement does not hold of the model of the unchanged code. -/
+/-- Hence the full statement does not hold of the model of the unchanged code (the link-local VPN next
+    hop alone refutes it, whatever the tree does about next-hop families). -/
 theorem c01_full_fails : ¬ C01Full := by
   intro h
-  obtain ⟨hw, hsent, hdec⟩ := c01_full_fails_ext_nexthop
-  obtain ⟨u, hu, _⟩ := h pPlain rExtNh _ wfsess_plain hw hsent
+  obtain ⟨hw, hsent, hdec⟩ := c01_full_fails_link_local_vpn
+  have hs : WFSess pLL := by
+    refine ⟨by simp [U32, pLL, pPlain], by decide, by decide, by decide, by decide, by decide, by decide, by decide,
+      by decide, by decide, ?_⟩
+    intro ll hl
+    simp only [pLL, Option.some.injEq] at hl
+    subst hl; rfl
+  obtain ⟨u, hu, _⟩ := h pLL rVpn6 _ hs hw hsent
   rw [hdec] at hu
   cases hu
 
